@@ -29,15 +29,16 @@ def gen_skewed(r):
     """operands of very different sizes: long vectors (20-300 coordinates) combined with short ones (1-3 coordinates,
     mostly drawn from the long ones' coordinates, including their smallest / largest), in both orientations"""
     universe = r.choice([40, 120, 400])
+    shift = r.choice([0, 0, 0, 2 ** 16 - 20, 2 ** 32 - 50, 2 ** 40])      # coordinates around the 16- and 32-bit boundaries
     ops, live = [], 0
     longs = []
     for _ in range(r.randint(1, 3)):
         k = r.randint(17, min(universe - 1, 300))
-        elems = r.sample(range(universe), k)
+        elems = [shift + x for x in r.sample(range(universe), k)]
         ops.append(["fromSet"] + elems); longs.append((live, sorted(elems))); live += 1
     for _ in range(r.randint(2, 6)):
         li, le = r.choice(longs)
-        pick = lambda: r.choice([le[0], le[-1], r.choice(le), r.choice(le), r.randrange(universe)])
+        pick = lambda: r.choice([le[0], le[-1], r.choice(le), r.choice(le), shift + r.randrange(universe)])
         if r.random() < .5: ops.append(["unit", pick()])
         else: ops.append(["fromSet"] + [pick() for _ in range(r.randint(1, 3))])
         live += 1
